@@ -53,3 +53,15 @@ CHECKS["C06"] = {
  "text": "First-hour simulations (also with the date expressed in another zone) are compared slot by slot with a twin built from the same spec on which the same changes were really made; interior dates with every pattern active are checked for hours before the date; every recomputed value is checked to be paired with and twin-linked to its baseline value; dates outside the patterns' period and naive dates must be refused.",
  "note": TB + "the library derives its modelled period from hourly ancestors outside the recomputation chain: valid-looking dates that it refuses are counted, not alarmed; change lists that supply a new hourly series are outside the no-hour-before-date claim",
 }
+CHECKS["C07"] = {
+ "level": "exploration",
+ "technique": "runtime monitoring: re-evaluation of every node of the recorded explanation trees with plain arithmetic + contracts on operator calls (recorded parents are the operands)",
+ "text": "At every quiescent point of generated models (plain and with all builder classes), edit histories and simulations toggled on, every node of every explanation tree whose operator is + - * / (and negate/abs/sum/max/duplicate) is re-evaluated from its recorded operands with plain float arithmetic on base-unit magnitudes and compared with the displayed value and dimension; explain() must run, calculated attributes and leaves must be labelled, attached input leaves sourced; contracts on every operator call check that the recorded parents are the very operands (~10^5 nodes and ~5*10^4 operator calls per quick run).",
+ "note": TB + "operators other than the listed ones (shift, UTC conversion, ceil, data look-ups) are traversed but not re-evaluated here (C03/C09/C11/C17 check those operations themselves)",
+}
+CHECKS["C17"] = {
+ "level": "exploration",
+ "technique": "runtime monitoring: differential against a plain twin model + independent recomputation of each builder rule from the packaged data",
+ "text": "Models containing every builder class are compared slot by slot with a plain twin (plain Server/Job carrying the derived parameters, services folded into base consumption); each derived parameter is recomputed by the monitor from the EcoLogits / Ecobenchmark / Boavizta data with the builder's stated rule; builder inputs are then edited (incl. provider+model and provider+instance grouped updates) and the live model compared with a rebuilt one and its twin. quick: all 7 resolutions and all computable technology x use-case pairs + stratified models / instance types; thorough: exhaustive over the four categorical spaces (7, 29, 295, 1919).",
+ "note": TB + "a plain Job cannot target a GPUServer (default compute in cpu_core), so the twin of a GenAI job is a harness-defined Job subclass whose default compute is in gpu; technology x use-case pairs absent from the packaged table cannot be computed by the library (IndexError) and are excluded",
+}
